@@ -1,16 +1,16 @@
 SPECIFICATION Spec
 CONSTANTS
-  InsSeq <- Ins2
+  InsSeq <- Ins3
   Flushers = {"f"}
   Closer = "c"
   Tables = {"t1"}
   LocSeq <- Loc2
-  FreeLocs = TRUE
+  FreeLocs = FALSE
   BatchSizes = {1, 2, 3}
-  PerIns = 2
-  PerFl = 2
+  PerIns = 1
+  PerFl = 1
   LockScope = "fix"
-  SigMode = "label"
+  SigMode = "none"
 VIEW View
 INVARIANTS TypeOK AllPersistedOnce NoCrash FlushHoldsLock NeverTwice LocInternOK TxnOwner EmitCase
 PROPERTIES Terminates Refines
